@@ -562,12 +562,23 @@ func reportedStorage(w *World) (int64, error) {
 }
 
 func reclaimFinal(removeAll bool, threshold int) func(w *World, c *Collector) *Violation {
+	return reclaimFinalMode(removeAll, false, threshold)
+}
+
+// reclaimFinalMode: with partial set, only K0 is superseded, so that
+// files keep live records and the low-use clause is exercised: a non-current
+// primary file whose free share is at or above the threshold must be drained
+// by relocation and released like the others.
+func reclaimFinalMode(removeAll, partial bool, threshold int) func(w *World, c *Collector) *Violation {
 	return func(w *World, c *Collector) *Violation {
 		mp := w.mh()
 		// 1. establish the premise: supersede every live record, flush
 		for ki := range w.Keys {
 			val, present := w.Model[string(w.Keys[ki].Digest)]
 			if !present {
+				continue
+			}
+			if partial && ki > 0 {
 				continue
 			}
 			var op Op
@@ -607,13 +618,21 @@ func reclaimFinal(removeAll bool, threshold int) func(w *World, c *Collector) *V
 					break
 				}
 				hasLive := false
+				var busy, free int64
 				for _, r := range recs {
 					if live[uint64(n)*uint64(view.ph.MaxFileSize)+uint64(r.Pos)] {
 						hasLive = true
+						busy += int64(r.Size)
+					} else {
+						free += int64(r.Size)
 					}
 				}
 				if !hasLive {
 					prem = append(prem, premise{fmt.Sprintf("%s.%d", dataPath, n), n == view.ph.FirstFile, len(recs)})
+				} else if partial && 100*free >= int64(threshold)*(free+busy) {
+					// low-use: must be drained by relocation and then released
+					prem = append(prem, premise{fmt.Sprintf("%s.%d", dataPath, n), false, len(recs)})
+					c.count("reclaim.low_use_premise_files", 1)
 				}
 			}
 		}
@@ -722,9 +741,15 @@ func reclaimFinal(removeAll bool, threshold int) func(w *World, c *Collector) *V
 }
 
 func c11Scenarios(tier string) []*SeqScenario {
-	alpha := putOps([]int{0, 1, 4}, []int{1, 2})
-	alpha = append(alpha, removeOps([]int{0, 1})...)
-	alpha = append(alpha, Op{Kind: OpFlush}, Op{Kind: OpPriGC, A: 85}, Op{Kind: OpIdxGC, B: true})
+	// The collector only re-examines a file when new freelist entries touch
+	// it, so the low-use threshold must be the same in every cycle of a
+	// history (as it is in production: a constant): one alphabet per threshold.
+	alphaFor := func(thr int) []Op {
+		a := putOps([]int{0, 1, 4}, []int{1, 2})
+		a = append(a, removeOps([]int{0, 1})...)
+		return append(a, Op{Kind: OpFlush}, Op{Kind: OpPriGC, A: thr}, Op{Kind: OpIdxGC, B: true})
+	}
+	_ = alphaFor
 	depth := 3
 	cfgs := []Config{cfg("mh", false, 8, 1, 1), cfg("mh", false, 8, 48, 48), cfg("cid", false, 8, 1, bigFile)}
 	if tier != "quick" {
@@ -732,6 +757,15 @@ func c11Scenarios(tier string) []*SeqScenario {
 		cfgs = append(cfgs, cfg("mh", false, 8, 48, 1), cfg("mh", false, 8, 1, 48), cfg("mh", false, 12, 48, 48))
 	}
 	var scs []*SeqScenario
+	// low-use draining with two live records of different sizes next to a
+	// large dead one: file 0 = [K0=L70, K1=a, K3=bb], more than 80% free once
+	// K0 is superseded
+	lowUse := cfg("mh", false, 8, 48, 100)
+	for _, thr := range []int{50, 80} {
+		scs = append(scs, &SeqScenario{Prop: "C11", Name: fmt.Sprintf("c11/lowuse/thr=%d", thr), Cfg: lowUse,
+			Preamble: []Op{P(0, 5), P(1, 1), P(3, 2), opF, P(4, 1), opF}, Alphabet: alphaFor(thr), Depth: depth - 1,
+			Setup: withLedger, Final: reclaimFinalMode(true, true, thr), Oracles: []string{"reclaim"}})
+	}
 	for _, c := range cfgs {
 		for pi, pre := range gcPreambles() {
 			for _, removeAll := range []bool{true, false} {
@@ -743,8 +777,12 @@ func c11Scenarios(tier string) []*SeqScenario {
 					if pi > 0 {
 						d = depth - 1
 					}
-					scs = append(scs, &SeqScenario{Prop: "C11", Name: fmt.Sprintf("c11/removeAll=%v/thr=%d", removeAll, thr), Cfg: c, Preamble: pre, Alphabet: alpha, Depth: d,
+					scs = append(scs, &SeqScenario{Prop: "C11", Name: fmt.Sprintf("c11/removeAll=%v/thr=%d", removeAll, thr), Cfg: c, Preamble: pre, Alphabet: alphaFor(thr), Depth: d,
 						Setup: withLedger, Final: reclaimFinal(removeAll, thr), Oracles: []string{"reclaim"}})
+					if removeAll && c.Primary == "mh" && c.PriFS > 1 {
+						scs = append(scs, &SeqScenario{Prop: "C11", Name: fmt.Sprintf("c11/partial/thr=%d", thr), Cfg: c, Preamble: pre, Alphabet: alphaFor(thr), Depth: d,
+							Setup: withLedger, Final: reclaimFinalMode(true, true, thr), Oracles: []string{"reclaim"}})
+					}
 				}
 			}
 		}
